@@ -315,12 +315,28 @@ class Interp:
         if k == "Struct":
             return tuple([e["path"]] + [(f["member"], self.expr(f["e"], env)) for f in e["fields"]])
         if k == "Closure":
-            return Sym("closure", id(e))
+            c = Sym("closure", id(e))
+            c.node = e
+            c.env = env          # captured by reference: later evaluation sees the defining environment
+            return c
         if k == "Macro":
             return Sym("macro", e.get("path"))
         if k == "Cast":
             return self.expr(e["e"], env)
         raise EngineError("tagsem: unknown expression " + str(e.get("s") or k))
+
+    def apply_closure(self, c, args):
+        """evaluate a closure value created by this interpreter on concrete arguments"""
+        if not (isinstance(c, Sym) and c.kind == "closure" and hasattr(c, "node")):
+            raise EngineError("tagsem: not a closure: " + repr(c))
+        env = dict(c.env)
+        for pat, a in zip(c.node["inputs"], args):
+            if not self.bind(pat, a, env):
+                raise EngineError("tagsem: closure argument does not match its pattern")
+        try:
+            return self.expr(c.node["body"], env)
+        except Ret as r:
+            return r.v
 
     def _assign_env(self, env, key, val):
         env[key] = val
